@@ -81,6 +81,7 @@ func extras() []sqlm.PoolEntry {
 			{Name: "par_code", Unique: true, Parts: asc("code"), Inline: true},
 			{Name: "par_grp_code", Unique: true, Parts: asc("grp", "code")},
 		}}
+	parent2 := sqlm.Table{Name: "par2", Cols: []sqlm.Col{col("id", "integer"), ncol("v", "text")}, PK: []string{"id"}}
 	child := sqlm.Table{Name: "chd", Cols: []sqlm.Col{
 		col("id", "integer"), ncol("p1", "integer"), ncol("p2", "integer"), dflt(col("p3", "integer"), "num", "1"), ncol("p4", "integer"), ncol("p5", "integer"),
 		ncol("c1", "text"), ncol("g", "integer"), ncol("gc", "text"),
@@ -91,6 +92,9 @@ func extras() []sqlm.PoolEntry {
 			{Name: "chd_p3", Cols: []string{"p3"}, RefTable: "par", RefCols: []string{"id"}, OnDelete: "SET DEFAULT", OnUpdate: "RESTRICT"},
 			{Name: "chd_p4", Cols: []string{"p4"}, RefTable: "par", RefCols: []string{"id"}, OnDelete: "RESTRICT", OnUpdate: "SET DEFAULT"},
 			{Name: "chd_p5", Cols: []string{"p5"}, RefTable: "par", RefCols: []string{"id"}, OnDelete: "NO ACTION", OnUpdate: "NO ACTION"},
+			// a second foreign key over the SAME column, to another parent: constraint names can only be
+			// told apart by looking at the referenced table as well
+			{Name: "chd_p1b", Cols: []string{"p1"}, RefTable: "par2", RefCols: []string{"id"}, OnDelete: "SET NULL"},
 			{Name: "chd_c1", Cols: []string{"c1"}, RefTable: "par", RefCols: []string{"code"}, OnUpdate: "CASCADE"},
 			{Name: "chd_gc", Cols: []string{"g", "gc"}, RefTable: "par", RefCols: []string{"grp", "code"}, OnDelete: "CASCADE"},
 		}}
@@ -140,7 +144,7 @@ func extras() []sqlm.PoolEntry {
 		{Name: "x-default-keyword-on-text", S: S(dmixb)},
 		{Name: "x-default-number-on-blob", S: S(dmixn)},
 		{Name: "x-strings", S: S(strs)},
-		{Name: "x-fkactions", S: S(parent, child)},
+		{Name: "x-fkactions", S: S(parent, parent2, child)},
 		{Name: "x-indexes", S: S(many, strict)},
 		{Name: "x-autoinc", S: S(auto, fake)},
 	}
